@@ -4,6 +4,7 @@
   definition equal to the hand-written model (CRModel/Geom.lean, CRModel/Index.lean) the C06 theorems are about — for all
   arguments. GEOS / STRtree predicates (`env`, `isects`, `within`, `ptIn`, `norm`) are parameters on both sides, as in the
   model. A source edit that changes what one of these functions computes breaks a `tie_*` theorem at build time.
+  `find_lanelet_by_position` is among them (`tie_find_lanelet_by_position`); no target of src_c06.py is pending.
 -/
 import Gen.SrcC06
 import CRModel.Index
